@@ -74,6 +74,7 @@ class Block:
         self.ats = []  # (kind, anchor, nth, text)
         self.droparms = []  # (pattern_start_seq, replacement_text)
         self.dropscan = []  # identifiers (prefix match) that must NOT occur in dropped text
+        self.closures = []  # (nth, text): ghost result naming wrapped around the nth closure body of the fn
 
 
 def parse_template(path):
@@ -110,6 +111,8 @@ def parse_template(path):
                     # flush
                     if mode == "spec":
                         b.spec = "\n".join(cur)
+                    elif mode is not None and mode[0] == "closure":
+                        b.closures.append((mode[2], "\n".join(cur)))
                     elif mode is not None:
                         b.ats.append((mode[0], mode[1], mode[2], "\n".join(cur)))
                     cur = []
@@ -133,6 +136,9 @@ def parse_template(path):
                         mode = None
                     elif s2.startswith("//@spec"):
                         mode = "spec"
+                    elif s2.startswith("//@closure"):
+                        m = re.match(r'//@closure(?:\s+nth=(\d+))?', s2)
+                        mode = ("closure", None, int(m.group(1)) if m.group(1) else 0)
                     elif s2.startswith("//@at"):
                         m = re.match(r'//@at\s+(before|after|loop-body|loop|body-start|body-end)(?:\s+("(?:[^"\\]|\\.)*"))?(?:\s+nth=(\d+))?', s2)
                         if not m:
@@ -175,6 +181,44 @@ def apply_rewrites(text, rewrites, report):
             text = text[:a] + to + text[b:]
         report.append("rewrite %r => %r (%d site%s)" % (frm, to, len(hits), "" if len(hits) == 1 else "s"))
     return text
+
+
+def find_closures(toks, lo, hi):
+    """Closures of a fn body in source order: list of (index of the closing `|` of the parameter list, first body token,
+    last body token). A closure starts at a `|` in expression-start position (after `(`, `,`, `=`, `move`, `{`, `;`, `return`);
+    `||` (no parameters) is two adjacent `|`. The body extends to the token before the depth-0 `,` `)` `]` `}` or `;`."""
+    out = []
+    k = lo + 1
+    while k < hi:
+        t = toks[k]
+        if t.kind == "p" and t.text == "|":
+            prev = toks[k - 1]
+            starts = (prev.kind == "p" and prev.text in "(,={;") or (prev.kind == "id" and prev.text in ("move", "return"))
+            if starts:
+                # parameter list up to the next `|` at bracket depth 0
+                j = k + 1
+                while j < hi and not (toks[j].kind == "p" and toks[j].text == "|"):
+                    if toks[j].kind == "p" and toks[j].text in "([{":
+                        j = rsrc.match_close(toks, j)
+                    j += 1
+                bar2 = j
+                e = bar2 + 1
+                if toks[e].kind == "p" and toks[e].text == "-" and toks[e + 1].text == ">":
+                    k = e
+                    continue  # already has a declared return type: leave it alone
+                first = e
+                while e < hi:
+                    te = toks[e]
+                    if te.kind == "p" and te.text in "([{":
+                        e = rsrc.match_close(toks, e)
+                    elif te.kind == "p" and te.text in ",)]};":
+                        break
+                    e += 1
+                out.append((bar2, first, e - 1))
+                k = bar2 + 1
+                continue
+        k += 1
+    return out
 
 
 def extract_block(b, sources, scratch, canary=False):
@@ -297,6 +341,14 @@ def extract_block(b, sources, scratch, canary=False):
     if b.spec.strip():
         add(toks[body_open].start, "\n" + b.spec + "\n")
     loops_for_canary = []
+    if b.closures:
+        cls = find_closures(toks, body_open, body_close)
+        for nth, txt in b.closures:
+            if nth >= len(cls):
+                raise Undecided("lost-anchor: closure #%d not found in fn %s (%d closures)" % (nth, b.args["fn"], len(cls)))
+            bar2, body_first, body_last = cls[nth]
+            add(toks[bar2].end, " " + txt.strip() + " { ")
+            add(toks[body_last].end, " }")
     for kind, anchor, nth, txt in b.ats:
         if kind == "body-start":
             add(toks[body_open].end, "\n" + txt + "\n")
